@@ -67,7 +67,7 @@ func hsConfs(all bool) []hsConf {
 			v string
 			l bool
 		}{{"1", true}, {"1,2", false}, {"2,3", false}, {"0", true}} {
-			for _, t := range []string{"none", "static", "auto"} {
+			for _, t := range []string{"none", "static", "auto", "staticroots"} {
 				for _, m := range []bool{false, true} {
 					out = append(out, hsConf{al, vs.v, vs.l, t, m})
 				}
@@ -83,6 +83,7 @@ func hsConfs(all bool) []hsConf {
 	for _, i := range pick {
 		sub = append(sub, out[i%len(out)])
 	}
+	sub = append(sub, hsConf{"netrpc,grpc", "1", true, "staticroots", false}, hsConf{"grpc", "1,2", false, "staticroots", true})
 	return sub
 }
 
@@ -307,6 +308,13 @@ func hsClientConfig(r *h.Run, c hsConf, path, launch string, timeout time.Durati
 	}
 	if c.TLS == "static" {
 		cfg.TLSConfig = &tls.Config{InsecureSkipVerify: true, MinVersion: tls.VersionTLS12}
+	}
+	if c.TLS == "staticroots" {
+		// a static configuration that brings root certificates of its own
+		pool := x509.NewCertPool()
+		certPEM, _ := h.SelfSignedPEM()
+		pool.AppendCertsFromPEM(certPEM)
+		cfg.TLSConfig = &tls.Config{RootCAs: pool, ServerName: "localhost", MinVersion: tls.VersionTLS12}
 	}
 	if launch == "runner" {
 		conf := h.Conf{Path: path, Name: "plugin", Launch: "runner"}
@@ -756,7 +764,7 @@ func runC05Resource(r *h.Run) {
 func init() {
 	Register(&Prop{ID: "C01",
 		Meta: Meta{Level: "exploration",
-			Rule:       "scripted (non-go-plugin) plugin process whose first stdout line is generated from a 7-field grammar (per field: valid/empty/garbage/non-numeric/negative/huge/blank-padded/...; missing and extra fields; LF/CRLF/no terminator; blank lines first; 70KB line; real DER certificates generated inside the run) delivered in drawn chunks with drawn delays that straddle StartTimeout, then staying alive, exiting or closing stdout; x 96 client configurations (allowed lists x legacy/versioned sets x TLS none/static/AutoMTLS x mux); oracle = reference reading of the line written from the property statement: Start returns within StartTimeout+bound, never (nil,nil), succeeds only for lines the reference accepts, reports exactly the line's protocol/version/address, on error the process is terminated; host panic = violation. Quick: all single-field deviations x 8 configurations x 2 launch methods (complete) + 1500 random; thorough: x all 96 configurations + random",
+			Rule:       "scripted (non-go-plugin) plugin process whose first stdout line is generated from a 7-field grammar (per field: valid/empty/garbage/non-numeric/negative/huge/blank-padded/...; missing and extra fields; LF/CRLF/no terminator; blank lines first; 70KB line; real DER certificates generated inside the run) delivered in drawn chunks with drawn delays that straddle StartTimeout, then staying alive, exiting or closing stdout; x 128 client configurations (allowed lists x legacy/versioned sets x TLS none/static/static with own RootCAs/AutoMTLS x mux); oracle = reference reading of the line written from the property statement: Start returns within StartTimeout+bound, never (nil,nil), succeeds only for lines the reference accepts, reports exactly the line's protocol/version/address, on error the process is terminated; host panic = violation. Quick: all single-field deviations x 10 configurations x 2 launch methods (complete) + 1500 random; thorough: x all 128 configurations + random",
 			Exhaustive: "all single-field deviations from the valid line (7 fields x 8-13 classes), 16 line shapes, 11 timing/exit behaviours, silent and partial-line plugins, for each listed client configuration and launch method"},
 		Plan: func(tier string, seed uint64, stage int, prev []*h.Result) []*k.Spec {
 			if stage > 0 {
